@@ -543,6 +543,11 @@ func (P *Prog) testWriteBeforeRead(r *Result) (bool, string) {
 					ctxv = c
 				}
 			}
+			if ctxv == nil && P.wrapsOwnTestFunc(fn, base, funcField, ci) {
+				// a wrapper installed into the Func slot of the very Test whose previous Func it calls, handing on
+				// its own context parameter: it runs only as that Test's Func, under the store (1) demands
+				return
+			}
 			if ctxv == nil {
 				okAll = false
 				details = append(details, fname(fn)+": Test.Func called without a *SchemaCtx argument")
@@ -641,6 +646,53 @@ func (P *Prog) testWriteBeforeRead(r *Result) (bool, string) {
 		return true, fmt.Sprintf("%d Test.Func call sites each dominated by ctx.Test=&t; %d readers of .Test are closures bound to Test.Func", nCalls, nReaders)
 	}
 	return false, strings.Join(details, "; ")
+}
+
+// wrapsOwnTestFunc: fn is a closure whose only use is being stored into the Func field of the Test object `base`, the
+// called value is the Func that object held before (captured by the closure), and the context handed on is one of the
+// closure's own parameters.
+func (P *Prog) wrapsOwnTestFunc(fn *ssa.Function, base ssa.Value, funcField *types.Var, ci *callInfo) bool {
+	par := fn.Parent()
+	if par == nil || base == nil {
+		return false
+	}
+	passesOwn := false
+	for _, a := range ci.args() {
+		if p, ok := cv(a).(*ssa.Parameter); ok && p.Parent() == fn {
+			if _, isIface := p.Type().Underlying().(*types.Interface); isIface || P.isPtrTo(p.Type(), P.roles.SchemaCtx) {
+				passesOwn = true
+			}
+		}
+	}
+	if !passesOwn {
+		return false
+	}
+	ok, n := true, 0
+	eachInstr(par, func(_ *ssa.BasicBlock, _ int, in ssa.Instruction) {
+		mc, isMC := in.(*ssa.MakeClosure)
+		if !isMC || mc.Fn != fn {
+			return
+		}
+		if refs := mc.Referrers(); refs != nil {
+			for _, rf := range *refs {
+				if _, isDbg := rf.(*ssa.DebugRef); isDbg {
+					continue
+				}
+				st, isSt := rf.(*ssa.Store)
+				if !isSt || st.Val != ssa.Value(mc) {
+					ok = false
+					continue
+				}
+				sb, f := fieldVar(st.Addr)
+				if f == nil || !sameField(f, funcField) || cv(sb) != cv(base) {
+					ok = false
+					continue
+				}
+				n++
+			}
+		}
+	})
+	return ok && n > 0
 }
 
 func (P *Prog) closureStoredIntoTestFunc(fn *ssa.Function, funcField *types.Var) bool {
